@@ -31,5 +31,9 @@ def run(ctx):
         ctx.guard("C05", "parse-phase", lambda: parser.error_origin_by_phase(ctx, prog))
         ctx.guard("C05", "parse-look", lambda: parser.strict_lookahead(ctx, prog))
         ctx.guard("C05", "parse-forms", lambda: parser.entry_forms(ctx, prog))
+        ctx.guard("C05", "parse-bs", lambda: parser.block_size_field(ctx, prog))
+        ctx.guard("C05", "parse-end", lambda: parser.end_classification(ctx, prog))
+        ctx.guard("C05", "parse-out", lambda: parser.driver_outcomes(ctx, prog))
+        ctx.guard("C05", "parse-cap", lambda: parser.capacity_after_collapse(ctx, prog))
         ctx.guard("C05", "sym", lambda: eqord.len_index_symmetry(ctx, prog, scope=r"(store_into_bytes|insert_block_hash_into_bytes|len_in_str|::to_string|core::fmt::Display)", floor=2))
     return ctx.finish(EXPL, ["core::str::from_utf8 accepts all-ASCII input", "alloc::vec::from_elem(0, n) yields n bytes"])
